@@ -35,7 +35,11 @@ RULE = ("part 'reflection' (deterministic): every class defined in the labrea pa
         "Option evaluations observed. part 'substitution': a handler that answers one dataset's EvaluateRequest with a "
         "sentinel: the program's value must equal the reference with that dataset overridden. Non-trivial (graphs) = "
         ">=5 nested evaluate requests incl. a dataset and a warm cache get; (substitution) = the substituted dataset is "
-        "used as a dependency on the selected path; (reflection) = instance with the operation observed.")
+        "used as a dependency on the selected path; (reflection) = instance with the operation observed. part "
+        "'log-emitters': every documented way of emitting a log line (labrea.logging.DEBUG..CRITICAL, LogEffect, Logged with "
+        "log_first on/off, a dataset carrying a LogEffect) x level x logger x message x switch (on / option / context): one "
+        "LogRequest with that level, logger and message is observed, exactly that record reaches a capturing "
+        "logging.Handler, nothing when disabled, and the wrapped value is unchanged.")
 ASSUMPTIONS = [
     "a pass-through handler delegates to the runtime that was current when it was installed",
     "reference interpreter with an override table for the substitution part",
@@ -313,9 +317,94 @@ def cases(draw, prof):
     return {"spec": spec, "options": [draw(U.option_dicts(p_present=p)) for _ in range(2)], "target": draw(st.integers(0, 5))}
 
 
+# ---- user-level log emitters (labrea.logging.INFO(...), LogEffect, Logged) -------------------------------------------
+LEVELS = {"DEBUG": logging.DEBUG, "INFO": logging.INFO, "WARNING": logging.WARNING, "ERROR": logging.ERROR, "CRITICAL": logging.CRITICAL}
+
+
+class _Capture(logging.Handler):
+    def __init__(self):
+        super().__init__(level=logging.DEBUG)
+        self.records = []
+
+    def emit(self, record):
+        self.records.append((record.levelno, record.name, record.getMessage()))
+
+
+def check_emitters(case, ctx):
+    """Every documented way of emitting a log line goes through a LogRequest (observable, and silenced by both switches)."""
+    import labrea.logging as ll
+    from labrea import Option, dataset
+    lvl, name, msg = LEVELS[case["level"]], case["logger"], case["msg"]
+    o = dict(case["options"])
+    if case["switch"] == "opt":
+        o = U.overlay(o, {"LABREA": {"LOGGING": {"DISABLED": True}}})
+    kind = case["emitter"]
+    expect_value = None
+    if kind == "function":
+        emit = lambda: getattr(ll, case["level"])(name, msg, o)
+    elif kind == "effect-direct":
+        emit = lambda: ll.LogEffect(lvl, name, msg).transform(None, o)
+    elif kind == "logged":
+        node = ll.Logged(Option("A", 7), lvl, name, msg, log_first=case["log_first"])
+        emit = lambda: node.evaluate(o)
+        expect_value = o.get("A", 7)
+    else:   # a dataset carrying a LogEffect
+        def body(a=Option("A", 7)):
+            return ("v", a)
+        body.__name__ = "emitting"
+        ds = dataset(effects=[ll.LogEffect(lvl, name, msg)])(body)
+        emit = lambda: ds.evaluate(o)
+        expect_value = ("v", o.get("A", 7))
+    cap = _Capture()
+    logger = logging.getLogger(name)
+    old_level, old_prop = logger.level, logger.propagate
+    logger.addHandler(cap)
+    logger.setLevel(logging.DEBUG)
+    try:
+        ctxm, seen = recording([LogRequest])
+        with ctxm:
+            if case["switch"] == "ctx":
+                with ll.disabled():
+                    out = run(emit)
+            else:
+                out = run(emit)
+    finally:
+        logger.removeHandler(cap)
+        logger.setLevel(old_level)
+    where = f"{kind} level={case['level']} logger={name!r} msg={msg!r} switch={case['switch']} log_first={case.get('log_first')} options={o}"
+    if not out.ok:
+        raise Violation("log-emitter-failed", f"{where}: {out!r}")
+    if expect_value is not None and out.value != sem.typed(expect_value):
+        raise Violation("log-emitter-changed-value", f"{where}: value {out.value}, expected {sem.typed(expect_value)}")
+    mine = [r for r in cap.records if r[2] == msg]
+    reqs = [r for r in seen if r.msg == msg]
+    if case["switch"] == "ctx":
+        # the block replaces the handler: the recording handler outside it is rightly bypassed
+        if mine:
+            raise Violation("log-emitted-while-disabled", f"{where}: records {mine}")
+    else:
+        if len(reqs) != 1 or (reqs[0].level, reqs[0].name) != (lvl, name):
+            raise Violation("log-emission-not-a-request", f"{where}: observed LogRequests {[(r.level, r.name, r.msg) for r in reqs]}, expected exactly one ({lvl}, {name!r})")
+        if case["switch"] == "opt":
+            if mine:
+                raise Violation("log-emitted-while-disabled", f"{where}: records {mine}")
+        elif mine != [(lvl, name, msg)]:
+            raise Violation("log-record-differs", f"{where}: records {mine}, expected one ({lvl}, {name!r}, {msg!r})")
+    ctx.done(case, True, [f"emitter={kind}", f"switch={case['switch']}", f"level={case['level']}"])
+
+
+@st.composite
+def emitter_cases(draw):
+    return {"emitter": draw(st.sampled_from(["function", "effect-direct", "logged", "logged", "dataset-effect"])),
+            "level": draw(st.sampled_from(sorted(LEVELS))), "logger": draw(st.sampled_from(["vlib.emit", "vlib.emit.sub", "other"])),
+            "msg": "m-" + draw(st.text("abc {}%", max_size=6)), "switch": draw(st.sampled_from(["on", "on", "opt", "ctx"])),
+            "log_first": draw(st.booleans()), "options": draw(st.sampled_from([{}, {"A": 1}, {"A": None, "B": 2}]))}
+
+
 PROFILE = specgen.profile(depth=2, domain_rate=0.01)
 PARTS = [
     Part("reflection", check_reflection, enumerate=enum_reflection, budget={"quick": None, "thorough": None}),
     Part("graphs", check_graph, strategy=lambda ctx: cases(PROFILE), budget={"quick": 150, "thorough": 800}),
     Part("substitution", check_substitution, strategy=lambda ctx: cases(PROFILE), budget={"quick": 150, "thorough": 800}),
+    Part("log-emitters", check_emitters, strategy=lambda ctx: emitter_cases(), budget={"quick": 100, "thorough": 600}),
 ]
